@@ -431,8 +431,10 @@ fn main() {
         }))
         .unwrap_or_else(|_| "res=HARNESS-PANIC".into());
         let _ = std::fs::remove_dir_all(&dir);
+        // flushed per line: if a later universe kills the process (stack overflow, abort) the
+        // check still knows which one it was
         writeln!(w, "{r}").unwrap();
+        w.flush().unwrap();
     }
-    w.flush().unwrap();
     let _ = std::fs::remove_dir_all(&base);
 }
